@@ -230,6 +230,18 @@ def check(ctx):
                 ((moved[v] < 0 and isinstance(t.ops[0], (ast.Gt, ast.GtE))) or (moved[v] > 0 and isinstance(t.ops[0], (ast.Lt, ast.LtE))))
             ctx.ob("C02-R6", f.fq, f"counting loop on `{v}` exits through an ordering comparison", ok, node=lp, construct=f"counting loop exit test in {f.name}",
                    msg=f"`while {src(t)}` counts `{v}` {'down' if moved[v] < 0 else 'up'} but exits only on a type-strict / exact equality: a count that is a numpy integer (any computed count), a float or negative never satisfies it and the adverb loops forever")
+    # the same count spelled `for _ in range(count)`: range() accepts only integers, while a Klong count is any number whose
+    # value is whole (% and ^ always return floats): the adverb would raise TypeError where the definition applies the verb
+    for f in repo.all_funcs(("adverbs",)):
+        if "iterate" not in f.name:
+            continue
+        for lp in [n for n in walk_local(f.node) if isinstance(n, ast.For)]:
+            it = lp.iter
+            if isinstance(it, ast.Call) and callee_name(it) == "range" and any(isinstance(x, ast.Name) and x.id in f.params() for a_ in it.args for x in ast.walk(a_)):
+                n6 += 1
+                ctx.instance("C02-R6", f.fq, f"for {src(lp.target)} in {src(it)}")
+                ctx.ob("C02-R6", f.fq, "the count operand is consumed by comparison and subtraction, never by range()", False, node=lp, construct=f"count handed to range() in {f.name}",
+                       msg=f"`for {src(lp.target)} in {src(it)}` requires an int: a count that is whole in value but a float ((4%2){{x*2}}:*1, counts computed with % or ^) raises TypeError instead of applying the verb that many times")
     ctx.floor("C02-R6", "counting loops in the adverb implementations", n6, 2)
 
     # ---- R7 `op` names the chain's base verb, which is this adverb's verb only at the first position of a chain
@@ -333,6 +345,7 @@ SEEDS = [
          "    verb = arr[0].a\n    if isinstance(verb, KGSym) and verb not in reserved_fn_symbols:\n        try:\n            verb = klong._context[verb]\n        except KeyError:\n            pass\n    if arr[0].arity == 1:\n        f = lambda x,k=klong,a=verb: k.eval(KGCall(a, [x], arity=1))", rule="C02-R3"),
     Seed("each2-strict-zip", "fault", "adverbs", "    r = bknp.asarray([f(x,y) for x,y in zip(a,b)])", "    r = bknp.asarray([f(x,y) for x,y in zip(a,b,strict=True)])", rule="C02-R4"),
     Seed("chain-memo-on-node", "fault", "interpreter", "                return chain_adverbs(self, x.a)()", "                chain = getattr(x, '_chain', None)\n                if chain is None:\n                    chain = x._chain = chain_adverbs(self, x.a)\n                return chain()", rule="C02-R5"),
+    Seed("iterate-counts-with-range", "fault", "adverbs", "    while a > 0:\n        b = f(b)\n        a = a - 1\n    return b", "    for _ in range(a):\n        b = f(b)\n    return b", rule="C02-R6"),
     Seed("iterate-strict-equality", "fault", "adverbs", "    while a > 0:\n        b = f(b)\n        a = a - 1\n    return b", "    while not safe_eq(a, 0):\n        b = f(b)\n        a = a - 1\n    return b", rule="C02-R6"),
     Seed("scan-iterate-not-equal", "fault", "adverbs", "    r = [b]\n    while a > 0:", "    r = [b]\n    while a != 0:", rule="C02-R6"),
     Seed("refactor-reorder-shortcuts", "refactor", "adverbs", "        if safe_eq(op.a,'+'):\n            return np_backend.add.reduce(a)\n        elif safe_eq(op.a, '-'):\n            return np_backend.subtract.reduce(a)",
